@@ -67,13 +67,13 @@ _BASE_CLAIMS = {
 
 CLAIMS = {
  "C02": {"text": "Per-call contracts of File::{read,write,seek,flush,drop} proved from ANY state satisfying the type invariant inv_file, for every buffer length, every cursor, every device content with valid cluster pointers: bounds on the count returned, the exact device address of the single data transfer (so reads and writes of the same offset hit the same bytes), cursor/size/first-cluster updates, re-establishment of inv_file. Composition over histories is by that invariant (stated, not mechanised). File::truncate is proved in modular form (real body against the contracts of the two chain operations). Partial: four fixture geometries, seek's chain walk bounded.",
-         "note": _NOTE, "technique": "Kani single-call contracts on the real File code over a nondeterministic device + Verus/Kani geometry proofs for all validated BPBs"},
+         "note": _NOTE, "technique": "Kani single-call contracts on the real File code over a nondeterministic device + Verus/Kani geometry proofs for all validated BPBs; modular Kani harnesses: real caller body verified against callee contracts installed as #[kani::stub] with ghost state (File::truncate)"},
  "C03": {"text": "Allocation-table part and long-name-run part of the structural invariant, as contracts: FAT12/16/32 set/alloc_cluster/ClusterIterator::{free,truncate} proved in Verus for tables and chains of ANY size (exact frame: every other entry unchanged; allocated cluster was free; chain entries freed exactly; termination), LFN slot generation proved per step for every name length. Of the directory-tree part, the wiring of create_dir / create_file (one zero-filled cluster, entry in the parent, '.' -> itself, '..' -> parent or 0 for the root) and of File::truncate / the chain release are obligations on the real bodies with callees replaced by their contracts; duplicates and slot deletion in remove / rename are not decided.",
-         "note": _NOTE, "technique": "Verus contracts with loop invariants on mechanically extracted table functions; Kani per-step contract of the LFN generator; bounded Kani twins for replay"},
+         "note": _NOTE, "technique": "Verus contracts with loop invariants on mechanically extracted table functions; Kani per-step contract of the LFN generator; bounded Kani twins for replay; modular Kani harnesses: real caller body verified against callee contracts installed as #[kani::stub] with ghost state (create_dir, create_file, truncate, chain release)"},
  "C04": {"text": "Every encoder/decoder pair is proved two-sided against a layout specification written from the FAT specification (boot sector, BPB, FS-info, 32-byte short and long slots) and the write-back contracts (DirEntryEditor::flush, File::flush/drop, unmount) are proved; equality of whole trees across a remount is not decided.",
          "note": _NOTE, "technique": "Kani loop-free symbolic harnesses over all byte blocks / field values; device-log contracts"},
  "C05": {"text": "Table level (Verus, unbounded): count_free = number of free entries, find_free/alloc_cluster return NotEnoughSpace only if no entry in range is free, free() returns exactly the number of entries freed. FileSystem level (Kani, modular against the table contracts via stubs): cached counter -1/+n (alloc_cluster; truncate_cluster_chain / free_cluster_chain against the iterator contracts), write-back latch set whenever the counter changes, hint in range, stats caches the recount, FS-info image carries count and hint.",
-         "note": _NOTE, "technique": "Verus loop invariants over free_count; Kani harnesses with contract stubs (#[kani::stub])"},
+         "note": _NOTE, "technique": "Verus loop invariants over free_count; modular Kani harnesses: real FileSystem-level bodies verified against the table / iterator contracts installed as #[kani::stub]"},
  "C06": _BASE_CLAIMS["C06"],
  "C07": _BASE_CLAIMS["C07"],
  "C08": {"text": "Every decoding freedom the statement lists is a leaf contract against a specification-derived oracle (all raw FAT entry values incl. every end-of-chain marker and FAT32 high bits; active FAT / mirroring geometry; slot classification; short-name decoding with 0x05 and lowercase flags; OEM bytes), plus frame conditions for 'leaves everything else as it was' (set/alloc/free frames, DiskSlice write extent, 32-byte editor write, one-byte status write). Whole-listing equality is not decided.",
@@ -93,11 +93,11 @@ CLAIMS = {
  "C15": {"text": "Per-character acceptance proved for every char against the documented set; every length 0..300; ShortNameGenerator::new total on empty and multi-byte-first names; LFN slot generation lossless per step for every name length. Multi-character combinations are bounded (<= 4 ASCII chars).",
          "note": _NOTE, "technique": "Kani complete per-character / per-length harnesses; bounded string harnesses"},
  "C16": {"text": "Legality of every generated alias for every generator state, checksum link (lfn_checksum = specification; every slot carries it), reset/increment of next_iteration, hex encoding; the uniqueness step (after add_existing(e), generate() != e) is in the thorough tier (heavy). The scan-before-generate protocol of Dir::check_for_existence is an obligation on the real body (callees by contract); that the scan visits every live entry, and the retry-loop termination, are glue.",
-         "note": _NOTE, "technique": "Kani complete harnesses over the full generator state"},
+         "note": _NOTE, "technique": "Kani complete harnesses over the full generator state; modular Kani harnesses: real caller body verified against callee contracts installed as #[kani::stub] with ghost state (scan protocol of Dir::check_for_existence: ghost precondition of generate())"},
  "C17": {"text": "Every per-slot function the iterator calls is total on arbitrary bytes (slot codec, short-name decode, date/time decode incl. out-of-range values, checksum); the long-name builder step is in the thorough tier. Name-length bound and 'no foreign name' lemmas are not yet discharged (see DESIGN.md).",
          "note": _NOTE, "technique": "Kani complete harnesses over all 32-byte slots / 16-bit date-time words"},
  "C18": {"text": "Complete over the whole date/time domain: Kani function contracts on Date::encode / Time::encode (round trip at 10 ms / 2 s / 1 day resolution), decode total, setters touch only their fields, File::write stamps modified from the provider, read stamps accessed only with the option on, rename keeps stamps, a new entry (create_sfn_entry) carries all three stamps from the provider for every provider time.",
-         "note": _NOTE, "technique": "Kani function contracts (proof_for_contract) + complete harnesses"},
+         "note": _NOTE, "technique": "Kani function contracts (proof_for_contract) + complete harnesses over every provider time; modular Kani harnesses: real caller body verified against callee contracts installed as #[kani::stub] with ghost state (create_dir / create_file)"},
  "C19": {"text": "Contract equivalence: the cfg-selected long-name generator is proved against one and the same contract in the alloc and the fixed-buffer build. Byte-identity of images over histories is not decided.",
          "note": _NOTE, "technique": "same Kani contract discharged under two feature sets"},
  "C20": {"text": "Unbounded in volume size: offset_from_cluster / slices exact in 64 bits for every validated BPB up to 2^32-1 sectors x 4096 bytes and every cluster incl. the last; table offsets k*4, k*2, k+k/2 do not overflow for k <= 2^28+1; alloc_cluster wraps from any hint and finds a free cluster whenever one exists; File read/write at a 16 TiB fixture; default formatting for every size up to 2^32-1 sectors.",
